@@ -20,6 +20,9 @@ import MagpyVerif.Lemmas.KernAlgebra
 import MagpyVerif.Lemmas.KernCylinder
 import MagpyVerif.Lemmas.TrimeshInside
 import MagpyVerif.Lemmas.KernelLiterals
+import MagpyVerif.Props.C15
+import MagpyVerif.Model.Polyline
+import MagpyVerif.Lemmas.KernCylSeg
 namespace MagpyVerif.C12
 open MagpyVerif MagpyVerif.Kern
 
@@ -387,4 +390,123 @@ example : meshSize unitTetra = 1 := ut_size
 example : isFacetInwards (triScale 1000 (⟨0, 0, 0⟩, ⟨0, 1, 0⟩, ⟨1, 0, 0⟩)) (unitTetra.map (triScale 1000)) =
     isFacetInwards (⟨0, 0, 0⟩, ⟨0, 1, 0⟩, ⟨1, 0, 0⟩) unitTetra := is_facet_inwards_scale_invariant _ (by norm_num) _ _
 
+end MagpyVerif.C12
+
+/-! ### added by the audit: wrapper-level statements (the functions the driver runs) where only kernels were covered — Sphere
+without the superfluous `norm x ≠ 0`, all four outputs of `BHJM_dipole`, `BHJM_magnet_cuboid` with the six-logarithm hypothesis
+discharged by its own mask (via Props/C15), the masked Polyline row, and the ported `BHJM_cylinder_segment` -/
+
+namespace MagpyVerif.C12
+open MagpyVerif MagpyVerif.Kern
+
+-- non-vacuity of `dipole_homogeneous` / `sphere_scale_invariant` (hx)
+example : Kern.norm (⟨1, 0, 0⟩ : V3 ℝ) ≠ 0 := by simp [Kern.norm]
+
+/-- Sphere: the hypothesis `norm x ≠ 0` of `sphere_scale_invariant` is not needed (centre included) -/
+theorem sphere_scale_invariant_all (l : ℝ) (hl : 0 < l) (f : Field) (d : ℝ) (pol x : V3 ℝ) :
+    bhjmSphere f (l * d) pol (vs l x) = bhjmSphere f d pol x := by
+  by_cases hx : Kern.norm x ≠ 0
+  · exact sphere_scale_invariant l hl f d pol x hx
+  · have hx0 : Kern.norm x = 0 := not_not.mp hx
+    have hn := norm_scale l hl x
+    have habs : |l * d| = l * |d| := by rw [abs_mul, abs_of_pos hl]
+    have h1 : ¬ (|d| / 2 < 0) := not_lt.mpr (by positivity)
+    have h2 : ¬ (l * |d| / 2 < l * 0) := by rw [mul_zero]; exact not_lt.mpr (by positivity)
+    cases f <;>
+      simp only [bhjmSphere, hn, hx0, lt_real, abs_real, n, ofNat_real, Nat.cast_ofNat, habs, h1, h2, decide_false,
+        Bool.false_eq_true, if_false]
+
+/-- Dipole, all four outputs of `BHJM_dipole` (the function the driver runs) -/
+theorem bhjmDipole_homogeneous (l : ℝ) (hl : 0 < l) (f : Field) (m x : V3 ℝ) (hx : Kern.norm x ≠ 0) :
+    bhjmDipole f m (vs l x) = vs (1 / l ^ 3) (bhjmDipole f m x) := by
+  cases f
+  · simp only [bhjmDipole, dipole_homogeneous l hl m x hx]
+    apply V3.ext' <;> simp [vs] <;> ring
+  · simp only [bhjmDipole, dipole_homogeneous l hl m x hx]
+  · apply V3.ext' <;> simp [bhjmDipole, vs, zero3, n]
+  · apply V3.ext' <;> simp [bhjmDipole, vs, zero3, n]
+
+end MagpyVerif.C12
+
+namespace MagpyVerif.C12
+open MagpyVerif MagpyVerif.Kern
+
+/-- C12 (Cuboid, whole `BHJM_magnet_cuboid` as run by the driver): all four outputs are unchanged under a common
+positive length factor, for EVERY observer of a cuboid with positive sides — the `hgen` hypothesis of
+`cuboidB_scale_invariant` is discharged by the wrapper's own `general` mask (`C15.cuboid_defined_off_edges`),
+and the rows with `general = false` do not evaluate the core -/
+theorem bhjmCuboid_scale_invariant (l : ℝ) (hl : 0 < l) (f : Field) (dim pol x : V3 ℝ)
+    (hx : 0 < dim.x) (hy : 0 < dim.y) (hz : 0 < dim.z) :
+    bhjmCuboid f (vs l dim) pol (vs l x) = bhjmCuboid f dim pol x := by
+  simp only [bhjmCuboid, cuboidMasks_scale_invariant l hl]
+  cases hg : (cuboidMasks dim pol x).general
+  · cases f <;> simp only [wrapB, Bool.false_eq_true, if_false]
+  · have D := C15.cuboid_defined_off_edges dim pol x hx hy hz hg
+    simp only at D
+    obtain ⟨_, p1, p2, p3, p4, p5, p6, _⟩ := D
+    rw [cuboidB_scale_invariant l hl dim pol x ⟨p1.ne', p2.ne', p3.ne', p4.ne', p5.ne', p6.ne'⟩]
+
+-- non-vacuity of `hgen` of `cuboidB_scale_invariant`: an outside observer of the 1×2×3 cuboid
+example : cuboidB (vs 1000 (⟨1, 2, 3⟩ : V3 ℝ)) ⟨0, 0, 1⟩ (vs 1000 ⟨2, 3, 4⟩) = cuboidB ⟨1, 2, 3⟩ ⟨0, 0, 1⟩ ⟨2, 3, 4⟩ := by
+  have D := C15.cuboid_defined_off_edges ⟨1, 2, 3⟩ ⟨0, 0, 1⟩ ⟨2, 3, 4⟩ (by norm_num) (by norm_num) (by norm_num)
+    (by simp [cuboidMasks, n]; norm_num)
+  simp only at D
+  obtain ⟨_, p1, p2, p3, p4, p5, p6, _⟩ := D
+  exact cuboidB_scale_invariant 1000 (by norm_num) _ _ _ ⟨p1.ne', p2.ne', p3.ne', p4.ne', p5.ne', p6.ne'⟩
+
+end MagpyVerif.C12
+
+namespace MagpyVerif.C12
+open MagpyVerif MagpyVerif.Kern
+
+theorem v3eq_scale (l : ℝ) (hl : 0 < l) (a b : V3 ℝ) : v3eq (vs l a) (vs l b) = v3eq a b := by
+  have e : ∀ u v : ℝ, (l * u - l * v = 0) ↔ (u - v = 0) := fun u v => by
+    rw [← mul_sub]; simp [hl.ne']
+  simp only [v3eq, vs, eq0_real, e]
+
+/-- C12 (Polyline, one row of `BHJM_current_polyline` incl. `mask_equal` and the on-line mask `norm_o4 < 1e-15`,
+which is taken after the division by the segment length): all four outputs divide by `l` -/
+theorem bhjmSegment_homogeneous (l : ℝ) (hl : 0 < l) (f : Field) (cur : ℝ) (p1 p2 po : V3 ℝ) :
+    bhjmSegment f cur (vs l p1) (vs l p2) (vs l po) = vs (1 / l) (bhjmSegment f cur p1 p2 po) := by
+  have hl' : l ≠ 0 := hl.ne'
+  have hM : segmentHMasked cur (vs l p1) (vs l p2) (vs l po) = vs (1 / l) (segmentHMasked cur p1 p2 po) := by
+    simp only [segmentHMasked, vs_sub l hl, norm_scale l hl, vd_vs_cancel l hl]
+    generalize segmentCore (vd p1 (Kern.norm (p1 - p2))) (vd p2 (Kern.norm (p1 - p2))) (vd po (Kern.norm (p1 - p2))) = c
+    split_ifs
+    · apply V3.ext' <;> simp [vs, zero3, n]
+    · apply V3.ext' <;> simp [vs, vd, n] <;> ring
+  cases f <;> simp only [bhjmSegment, v3eq_scale l hl, hM] <;> (try split_ifs) <;>
+    (apply V3.ext' <;> simp [vs, zero3, n] <;> (try ring))
+
+end MagpyVerif.C12
+
+namespace MagpyVerif.C12
+open MagpyVerif MagpyVerif.Kern MagpyVerif.Kern.CylSeg
+
+/-- the prologue of `BHJM_cylinder_segment` makes everything dimensionless (units of the outer radius) -/
+theorem segNormalise_scale (μ : ℝ) (S : SegSpecial) (l : ℝ) (hl : 0 < l) (x : V3 ℝ) (r1 r2 h p1 p2 : ℝ) (hr2 : r2 ≠ 0) :
+    letI := realNumX μ S
+    segNormalise (vs l x) (l * r1) (l * r2) (l * h) p1 p2 = segNormalise x r1 r2 h p1 p2 := by
+  let _ := realNumX μ S
+  have habs : ∀ a : ℝ, |l * a| = l * |a| := fun a => by rw [abs_mul, abs_of_pos hl]
+  have hp : 0 < |r2| := abs_pos.mpr hr2
+  have hlp : 0 < l * |r2| := mul_pos hl hp
+  have hl' : l ≠ 0 := hl.ne'
+  have hp' : |r2| ≠ 0 := hp.ne'
+  simp only [segNormalise, vs, abs_real, lt_real, n, ofNat_real, Nat.cast_zero, habs, hlp, hp, decide_true, if_true]
+  have e : ∀ a : ℝ, l * a / (l * |r2|) = a / |r2| := fun a => mul_div_mul_left _ _ hl'
+  simp only [e]
+
+/-- C12 (CylinderSegment): all four outputs of the ported `BHJM_cylinder_segment` are unchanged when the radii, the
+height and the observer are multiplied by the same `l > 0` (angles untouched), for every observer, through every mask and
+all 26 cases, with the special functions opaque: after the prologue the two calls work on identical numbers -/
+theorem cylseg_scale_invariant (μ : ℝ) (S : SegSpecial) (l : ℝ) (hl : 0 < l) (f : Field) (x : V3 ℝ)
+    (r1 r2 h p1 p2 : ℝ) (pol : V3 ℝ) (hr2 : r2 ≠ 0) :
+    letI := realNumX μ S
+    bhjmCylSeg f (vs l x) (l * r1) (l * r2) (l * h) p1 p2 pol = bhjmCylSeg f x r1 r2 h p1 p2 pol := by
+  let _ := realNumX μ S
+  unfold bhjmCylSeg
+  rw [segNormalise_scale μ S l hl x r1 r2 h p1 p2 hr2]
+
+example : (2 : ℝ) ≠ 0 := by norm_num
 end MagpyVerif.C12
